@@ -225,7 +225,7 @@ def _c08() -> SimEngine:
 
 def _c09() -> SimEngine:
     prof = profile(p_gname=0.5, ops={"bad_spawn": 4, "bad_pool": 0.5, "lock": 2.5, "unlock": 2, "close": 0.6, "spawn": 8, "cancel_group": 0.8,
-                                     "set_size": 0.5, "gate": 5}, new_sizes=[-1, -2, -3, -0.5, -0.001])
+                                     "set_size": 0.5, "gate": 5}, new_sizes=[-1, -2, -3, -0.5, -0.001, "-inf"])
     return SimEngine(
         "C09",
         "every spawning method with rejection causes and their combinations (locked, closed, non-coroutine function: plain def / lambda / "
@@ -299,7 +299,8 @@ def _c13() -> SimEngine:
 
 def _c14() -> SimEngine:
     prof = profile(classes=["SimpleTaskPool"], sizes=[2, 3, 4, None, None, None], max_num=6, p_worker_raise=0.15, p_cb_raise=0.05, min_script=1,
-                   stop_rel_share=7, stop_rel=[-3, -2, -2, -1, -1, -1, 0, 1, 2], min_steps=8,
+                   stop_rel_share=7, stop_rel=[-3, -2, -2, -1, -1, -1, 0, 1, 2], min_steps=8, p_embedded=0.3,
+                   embedded_ops=["stop", "stop", "stop", "cancel", "gate", "cancel_group"],
                    ops={"spawn": 7, "stop": 8, "cancel": 3, "gate": 8, "tick": 6, "flush": 0.8, "cancel_group": 1.0, "close": 0.9, "unlock": 0.4},
                    cancel_refs=["run", "live", "live", "stale"])
     return SimEngine(
